@@ -63,8 +63,18 @@ def r19_1(ctx):
     bodies = prog.with_closures(f)
     gets = sum(1 for g in bodies for b, t in g.calls() if callee_is(t, "get") and "Object" in t["callee"])
     cmps = sum(1 for g in bodies for b, t in g.calls() if callee_is(t, "eq", "ne") and g.id != f.id or (callee_is(t, "eq", "ne") and "Option" in " ".join(t.get("rgargs") or t.get("gargs") or [])))
-    okc = bool(iters) and gets >= 2 * len(iters) and cmps >= len(iters)
-    ctx.ob("R19.1", "Object::eq:members-compared-by-lookup", okc, f.loc(), f"{len(iters)} enumeration(s), {gets} lookups by name, {cmps} comparisons: each enumeration compares get(name) of both operands")
+    looks = sum(1 for g in bodies for b, t in g.calls() if callee_is(t, "get", "contains_key", "get_key_value") and "Object" in t["callee"])
+    # one enumeration compares get(name) of both operands (two lookups and a comparison); a further enumeration has at
+    # least to look its names up in the other operand
+    okc = bool(iters) and cmps >= 1 and gets >= 2 and looks >= len(iters) + 1
+    ctx.ob("R19.1", "Object::eq:members-compared-by-lookup", okc, f.loc(), f"{len(iters)} enumeration(s), {looks} lookups by name, {cmps} comparison(s) of looked-up values: one enumeration compares get(name) of both operands, the other looks its names up in the first")
+    # ... and only one: comparing the values again in the second enumeration doubles the work at every nesting level
+    # (2^depth comparisons for nested single-member objects)
+    cmp_bodies = [g for g in bodies if any(callee_is(t, "eq", "ne") and (g.id != f.id or "Option" in " ".join(t.get("rgargs") or t.get("gargs") or [])) for b, t in g.calls())]
+    n_sites = sum(1 for g in bodies for b, t in g.calls() if callee_is(t, "eq", "ne") and (g.id != f.id or "Option" in " ".join(t.get("rgargs") or t.get("gargs") or [])))
+    ctx.ob("R19.1", "Object::eq:values-compared-once", n_sites <= 1, (cmp_bodies[0] if cmp_bodies else f).loc(),
+           "the member values are compared in one enumeration only" if n_sites <= 1 else
+           f"the member values are compared in {n_sites} enumerations: every nesting level multiplies the work (a == b on objects nested 40 deep does not finish)")
 
 
 def r19_2(ctx):
